@@ -127,15 +127,15 @@ def check_similarity_hypotheses(ck, res, replay, what=""):
                 return False
             ck.violation("similarity depends on which fragment comes first%s: sim(%s, %s) = %r dist %r gate %s, but sim(%s, %s) = %r dist %r gate %s"
                          % (what, floc(frags[i]), floc(frags[j]), c["sim"], c["dist"], c["gate"], floc(frags[j]), floc(frags[i]), o["sim"], o["dist"], o["gate"]),
-                         dict(replay, frag_a=frags[i], frag_b=frags[j], sim_ab=c["sim"], sim_ba=o["sim"]))
+                         dict(replay, frag_a=frags[i], frag_b=frags[j], sim_ab=c["sim"], sim_ba=o["sim"]), independent=True)
             return False
         if not (0.0 <= c["sim"] <= 1.0):
-            ck.violation("similarity %r outside [0,1]" % c["sim"], dict(replay, frag_a=frags[i], frag_b=frags[j]))
+            ck.violation("similarity %r outside [0,1]" % c["sim"], dict(replay, frag_a=frags[i], frag_b=frags[j]), independent=True)
             return False
         if frags[i]["tree"] == frags[j]["tree"] and (c["sim"] != 1.0 or c["dist"] != 0.0 or not c["gate"] or
                                                      frags[i]["size"] != frags[j]["size"] or frags[i]["feats"] != frags[j]["feats"]):
             ck.violation("equal trees but similarity %r distance %r gate %s sizes %d/%d" % (c["sim"], c["dist"], c["gate"], frags[i]["size"], frags[j]["size"]),
-                         dict(replay, frag_a=frags[i], frag_b=frags[j]))
+                         dict(replay, frag_a=frags[i], frag_b=frags[j]), independent=True)
             return False
     return True
 
@@ -243,7 +243,7 @@ def twin_section(ck, rng, thorough, stats, base):
             ck.violation("the set of detected pairs depends on the file order (twins %s, cost model %s, thresholds %s on the observed similarity): "
                          "order [%s, %s] gives %s, order [%s, %s] gives %s" % ("+".join(m["kinds"]), v, name, m["a"], m["b"], sorted(pa)[:3], m["b"], m["a"], sorted(pb)[:3]),
                          {"kind": "twins-order", "files": twins[ti]["texts"], "twin": m, "cost_model": v, "detector_config": cfg,
-                          "order_a": [m["a"], m["b"]], "pairs_a": sorted(pa), "order_b": [m["b"], m["a"]], "pairs_b": sorted(pb)})
+                          "order_a": [m["a"], m["b"]], "pairs_a": sorted(pa), "order_b": [m["b"], m["a"]], "pairs_b": sorted(pb)}, independent=True)
     # ---- phase 3 (command line): the same with pyscn analyze, file order given by the argument order
     cli_runs = []
     for ti, t in enumerate(twins):
@@ -295,7 +295,7 @@ def twin_section(ck, rng, thorough, stats, base):
                              "(%s x%d, thresholds %s): `%s %s` gives %s, `%s %s` gives %s" % (
                                  "+".join(m["kinds"]), m["occ"], name, m["a"], m["b"], sorted(got[0])[:3], m["b"], m["a"], sorted(got[1])[:3]),
                              {"kind": "twins-cli-order", "files": t["texts"], "toml": toml, "twin": m, "order_a": [m["a"], m["b"]], "pairs_a": sorted(got[0]),
-                              "order_b": [m["b"], m["a"]], "pairs_b": sorted(got[1]), "sim_ab": sab, "sim_ba": sba})
+                              "order_b": [m["b"], m["a"]], "pairs_b": sorted(got[1]), "sim_ab": sab, "sim_ba": sba}, independent=True)
 
 
 WIDE_LSH = dict(bands=64, rows=1, hashes=64, threshold=0.0)
@@ -444,7 +444,7 @@ def decide_path_runs(ck, runs, results, stats, jobs, thorough):
                 if not bad and (p["i"] == p["j"] or cc.upair(p["i"], p["j"]) in seen):
                     bad = "is reported twice"
                 if bad:
-                    ck.violation("%s reports a pair that is not justified: %s / %s %s" % (name, floc(fa), floc(fb), bad), dict(replay, path=name, pair=p, frag_a=fa, frag_b=fb))
+                    ck.violation("%s reports a pair that is not justified: %s / %s %s" % (name, floc(fa), floc(fb), bad), dict(replay, path=name, pair=p, frag_a=fa, frag_b=fb), independent=True)
                     break
                 seen[cc.upair(p["i"], p["j"])] = (p["sim"], p["dist"], p["type"])
                 stats["path_pairs"] = stats.get("path_pairs", 0) + 1
@@ -455,7 +455,7 @@ def decide_path_runs(ck, runs, results, stats, jobs, thorough):
                     stats["path_verbatim_expected"] = stats.get("path_verbatim_expected", 0) + 1
                     if seen.get((i, j)) != (1.0, 0.0, 1):
                         ck.violation("%s does not report a verbatim copy as (1.0, 0, Type-1): %s vs %s, got %s" % (name, floc(frags[i]), floc(frags[j]), seen.get((i, j))),
-                                     dict(replay, path=name, frag_a=frags[i], frag_b=frags[j]))
+                                     dict(replay, path=name, frag_a=frags[i], frag_b=frags[j]), independent=True)
                         break
         # model: the same fragments and configuration on the comparison loops.  Similarity cells = the probe's comparisons (a pair
         # the probe does not report was rejected by a pre-filter or lies below 0.3: the missing cell reproduces that), no feature lists
@@ -616,7 +616,7 @@ def decide_big_project(ck, big, stats, jobs):
                 bad = "is reported twice"
         if bad:
             ck.violation("pyscn analyze on a project with %d fragments (batched comparison) reports a pair that is not justified: %s / %s %s" % (n, la, lb, bad),
-                         dict(replay, pair=p))
+                         dict(replay, pair=p), independent=True)
             return
         seen[cc.upair(ia, ib)] = (s, p["distance"], ty)
         stats["big_cross_batch_pairs"] = stats.get("big_cross_batch_pairs", 0) + (max(ia, ib) >= 100 > min(ia, ib))
@@ -642,7 +642,7 @@ def decide_big_project(ck, big, stats, jobs):
                     ck.known_finding(e)
                 else:
                     ck.violation("verbatim copy not reported as (1.0, 0, Type-1) in a project with %d fragments: %s vs %s, got %s" % (n, floc(frags[i]), floc(frags[j]), got),
-                                 dict(replay, frag_a=frags[i], frag_b=frags[j], tags=tags))
+                                 dict(replay, frag_a=frags[i], frag_b=frags[j], tags=tags), independent=True)
     big["seen"] = seen
     # model: the service pipeline on the candidates of every file; similarity cells = what the lenient run observed (a pair it does
     # not report was rejected before or by the classification, which the missing cell reproduces), no feature lists
@@ -1019,7 +1019,7 @@ def main(tier):
             if any(abs(s - x) < 1e-9 for x in t + [thr]):
                 stats["boundary_thresholds"] += 1
         if bad:
-            ck.violation(bad, dict(replay, pairs=pairs))
+            ck.violation(bad, dict(replay, pairs=pairs), independent=True)
             continue
 
         # assumptions on the similarity function, tested on the implementation (tie of the Section hypotheses)
@@ -1104,7 +1104,7 @@ def main(tier):
         if len(res["detect"]) < 10000 and locset(res, res["detect"]) != locset(res2, res2["detect"]):
             d1, d2 = locset(res, res["detect"]), locset(res2, res2["detect"])
             ck.violation("the set of detected pairs depends on the file order: only in order A %s, only in order B %s" % (
-                sorted(d1 - d2)[:3], sorted(d2 - d1)[:3]), dict(replay, order_a=[f["file"] for f in res["frags"]], order_b=[f["file"] for f in res2["frags"]]))
+                sorted(d1 - d2)[:3], sorted(d2 - d1)[:3]), dict(replay, order_a=[f["file"] for f in res["frags"]], order_b=[f["file"] for f in res2["frags"]]), independent=True)
 
         if r.get("cli_default") and r["cli_default"].get("clone"):
             def cliset(c):
@@ -1113,7 +1113,7 @@ def main(tier):
             stats["order_runs"] += 1
             if a != b and len(pairs) < 10000:
                 ck.violation("pyscn analyze reports a different set of clone pairs for file order %s than for the default order: only permuted %s, only default %s"
-                             % (r["order"], sorted(a - b)[:2], sorted(b - a)[:2]), replay)
+                             % (r["order"], sorted(a - b)[:2], sorted(b - a)[:2]), replay, independent=True)
 
         # tie: implementation = model
         if model_out is not None and "job" in r:
